@@ -8,10 +8,27 @@ def _stat(ln, key):
     return int(m.group(1)) if m else 0
 
 
+def _skipped(ln):
+    return ln.startswith("E ") and "| skip-env" in ln
+
+
+def _post(lines, verdicts):
+    """Scenarios that could not start (no loopback ports) observe nothing. A few are tolerated and
+    reported; more than max(3, 2 %) means the e2e tie was not exercised and the check must fail."""
+    e = [ln for ln in lines if ln.startswith("E ")]
+    sk = [ln for ln in e if _skipped(ln)]
+    if e and len(sk) > max(3, len(e) // 50):
+        return [("diff", sk[0], "diff e2e tie not exercised: %d of %d scenarios could not start (%s)"
+                 % (len(sk), len(e), sk[0].split("|", 1)[1].strip()))]
+    return []
+
+
 def _e2e_cov(lines):
     e = [ln for ln in lines if ln.startswith("E ")]
     return {
         "e2e_scenarios": len(e),
+        "e2e_scenarios_not_started_env": sum(1 for ln in e if _skipped(ln)),
+        "e2e_connections_opened": sum(_stat(ln, "op") for ln in e),
         "e2e_successful_use_calls": sum(_stat(ln, "ok") for ln in e),
         "e2e_request_frames_checked": sum(_stat(ln, "fr") for ln in e),
         "e2e_request_frames_after_successful_use": sum(_stat(ln, "strict") for ln in e),
@@ -25,19 +42,25 @@ SPEC = {
     "coq_targets": ["Props/C20.vo", "Extract/ExC20.vo"],
     "bin": "c20",
     "sizes": {"quick": 30000, "thorough": 2000000},
+    # the search stage re-runs the thorough e2e part as well: one round, not three (loopback ports)
     "search_n": 300000,
     "rule": ("pure part: every string of length 0..3 over the 12 characters a Z 7 _ \" ' ; blank - . e-acute newline "
              "x both case flags, every length 0..60 of a valid and of a two-byte character, every ASCII character alone "
              "and inside a valid name, every outcome list of length <= 3, then seeded random cases: N = name validation "
              "(VerifiedKeyspaceName::new), V = check of a USE response, A = aggregation of per-connection results; "
-             "e2e part: E = one seeded scenario (150 quick / 6000 thorough) of a real Session against mocknode: 1-3(+2 added) nodes, "
+             "e2e part: E = one seeded scenario (150 quick / 1200 thorough; DESIGN planned 6000, which exhausted the loopback "
+             "ports of the machine) of a real Session against mocknode: 1-3(+2 added) nodes, "
              "0-3 shards, pool 1-3 connections, 5-16 steps out of use_keyspace (valid / unknown / invalid names; answers normal, "
              "delayed, refused, unanswered, cutting the connection; racing requests and connection kills; two calls at once), "
              "request bursts, kill all connections of a node, close one connection, add a node, sleep; always ending with a "
              "clean use + kill + requests; non-trivial = N/V/A cases and E scenarios with at least one request frame checked "
-             "strictly after a successful use; distinct = distinct case lines"),
+             "strictly after a successful use; scenarios whose session could not be built for lack of loopback ports "
+             "(EADDRINUSE after 3 retries) are reported as not-run, counted, and fail the check above max(3, 2%); "
+             "distinct = distinct case lines"),
     "nontrivial": lambda ln: (not ln.startswith("E ")) or _stat(ln, "strict") > 0,
     "extra_coverage": lambda lines, verdicts: _e2e_cov(lines),
+    "post": _post,
+    "search_rounds": 1,
     "runner_timeout": 3000,
     "trusted_base": [
         "vh::mocknode (scripted CQL mock cluster): per connection the keyspace acknowledged so far; the runner's handler records request-frame arrivals and client-side call/return/start events in one mutex-ordered sequence",
